@@ -341,6 +341,25 @@ def c10(args):
             rel = ((grads[0] - grads[1]).abs().max() / grads[0].abs().max().clamp_min(1e-12)).item()
             if rel > 1e-9:
                 bad.append((noise, wts, rel))
+    # integration window with negative times (the drift of SDE depends on t through sin(t + y): not even in t)
+    for noise in ('diagonal', 'general'):
+        d = 2
+        m = noise_m(noise, d)
+        ts = torch.tensor([-1.0, -0.5, 0.5])
+        grads = []
+        for adjoint in (False, True):
+            sde = SDE(noise, 'stratonovich', d)
+            y0 = torch.full((2, d), 0.5, requires_grad=True)
+            bm = torchsde.BrownianInterval(-1.0, 0.5, size=(2, m), entropy=7, dtype=torch.float64)
+            if adjoint:
+                ys = torchsde.sdeint_adjoint(sde, y0, ts, bm=bm, method='reversible_heun', adjoint_method='adjoint_reversible_heun', dt=0.125)
+            else:
+                ys = torchsde.sdeint(sde, y0, ts, bm=bm, method='reversible_heun', dt=0.125)
+            g = torch.autograd.grad((ys ** 2).sum(), [y0] + list(sde.parameters()))
+            grads.append(torch.cat([x.reshape(-1) for x in g]))
+        rel = ((grads[0] - grads[1]).abs().max() / grads[0].abs().max().clamp_min(1e-12)).item()
+        if rel > 1e-9:
+            bad.append((noise, 'negative times', rel))
     # user functions that return their argument itself (storage shared between the state and the vector fields)
     for which in ('g', 'f'):
         class Ident(torch.nn.Module):
@@ -541,6 +560,32 @@ def c15(args):
                 err = (yb - y0).abs().max().item()
                 if err > 1e-9:
                     bad.append((noise, span, 'forward run driven by a ReverseBrownian' if nested else 'plain', err))
+    # times held in float64 while the Brownian motion and the state are float32; grid points not representable in float32
+    for noise in ('diagonal', 'general'):
+        sde, m, _ = _sdeint_cfg('stratonovich', noise)
+        sde = sde.float()
+        y0 = torch.full((2, 2), 0.5, dtype=torch.float32)
+        dt = 2.0 ** -3 + 2.0 ** -30
+        grid = [k * dt for k in range(9)]
+        base = torchsde.BrownianInterval(0., grid[-1], size=(2, m), entropy=3, dtype=torch.float32)
+        ys, (f, g, z) = torchsde.sdeint(sde, y0, torch.tensor([grid[0], grid[-1]], dtype=torch.float64), bm=base, method='reversible_heun', dt=dt, extra=True)
+
+        class Minus32(torch.nn.Module):
+            noise_type, sde_type = sde.noise_type, sde.sde_type
+
+            def f(self, t, y):
+                return -sde.f(-t, y)
+
+            def g(self, t, y):
+                return -sde.g(-t, y)
+        yb, extra = ys[-1], (-f, -g, z)
+        for k in range(len(grid) - 1, 0, -1):
+            out, extra = torchsde.sdeint(Minus32(), yb, torch.tensor([-grid[k], -grid[k - 1]], dtype=torch.float64), bm=torchsde.ReverseBrownian(base),
+                                         method='reversible_heun', dt=1.0, extra=True, extra_solver_state=extra)
+            yb = out[-1]
+        err = (yb - y0).abs().max().item()
+        if err > 2e-5:
+            bad.append((noise, 'float64 times with a float32 Brownian motion', err))
     return {'reproduced': bool(bad), 'detail': bad[:6]}
 
 
@@ -639,6 +684,42 @@ def c08(args):
                 ga = 0.0 if g_ is None else g_.item()
                 if abs(fd - ga) > 1e-5 * max(1.0, abs(fd)):
                     bad.append((method, noise, y0_rg, 'param', fd, ga))
+    # logqp=True with diagonal noise: the log-ratio output must be differentiable w.r.t. diffusion parameters too
+    class LQ(torch.nn.Module):
+        noise_type, sde_type = 'diagonal', 'ito'
+
+        def __init__(self):
+            super().__init__()
+            self.b = torch.nn.Parameter(torch.tensor(0.6, dtype=torch.float64))
+
+        def f(self, t, y):
+            return -y
+
+        def g(self, t, y):
+            return self.b * (1.0 + 0.3 * torch.cos(y))
+
+        def h(self, t, y):
+            return -0.5 * y
+    for method in ('euler', 'srk'):
+        sde = LQ()
+
+        def run():
+            bm = torchsde.BrownianInterval(0., 1., size=(2, 3), entropy=5, dtype=torch.float64,
+                                           levy_area_approximation='space-time' if method == 'srk' else 'none')
+            ys, lq = torchsde.sdeint(sde, torch.full((2, 2), 0.5, dtype=torch.float64), torch.tensor([0., 0.5, 1.0], dtype=torch.float64), bm=bm,
+                                     method=method, dt=0.125, logqp=True)
+            return lq.sum()
+        ga = torch.autograd.grad(run(), [sde.b])[0].item()
+        eps = 1e-6
+        with torch.no_grad():
+            sde.b.add_(eps)
+            lp = run().item()
+            sde.b.sub_(2 * eps)
+            lm = run().item()
+            sde.b.add_(eps)
+        fd = (lp - lm) / (2 * eps)
+        if abs(fd - ga) > 1e-5 * max(1.0, abs(fd)):
+            bad.append((method, 'logqp diagonal', 'd(log-ratio)/d(diffusion parameter)', fd, ga))
     return {'reproduced': bool(bad), 'detail': [str(b) for b in bad[:6]]}
 
 
